@@ -217,12 +217,35 @@ def check_python(report):
              "None only for absent / custom patterns and empty uris; otherwise HttpRule(verb, convert_uri_fieldnames(uri), body) where a reserved body "
              "field name gets one '_' (once)")
 
-    r4 = report.rule("C04.4p", "query_params = input fields - path params - body field (none for `*`); path-variable patterns are not greedy", floor=2)
+    r4 = report.rule("C04.4p", "query_params = input fields - path params - body field (none for `*`); path-variable patterns are not greedy", floor=6)
     qp = m.func("gapic.schema.wrappers.Method.query_params")
     r4.instance("query_params")
-    ok = (find_match("set(self.input.fields) - _P_", qp.node)[0] is not None and find_match("set(self.path_params)", qp.node)[0] is not None
-          and find_match("_B_ == '*'", qp.node)[0] is not None and find_match("_P_.add(_B_)", qp.node)[0] is not None)
-    r4.check(ok, p, qp.node.lineno, "Method.query_params", "query parameters are all input fields minus path variables minus the body field; none when body is `*`")
+    # ingredients (any arrangement): the path variables and the body field are both excluded, `*` is special-cased
+    src_nodes = list(ast.walk(qp.node))
+    reads_path = any(isinstance(n, ast.Attribute) and n.attr == "path_params" for n in src_nodes)
+    reads_body = any(isinstance(n, ast.Constant) and n.value == "body" for n in src_nodes)
+    star = any(isinstance(n, ast.Compare) and any(isinstance(c, ast.Constant) and c.value == "*" for c in [n.left] + n.comparators) for n in src_nodes)
+    reads_fields = any(isinstance(n, ast.Attribute) and n.attr == "fields" and ast.unparse(n.value) == "self.input" for n in src_nodes)
+    r4.check(reads_path and reads_body and star and reads_fields, p, qp.node.lineno, "Method.query_params",
+             "query parameters are all input fields minus path variables minus the body field; none when body is `*`")
+    # spelling agreement (vlib/namespaces.py): the keys of input.fields are PY-spelled (`object_`), the http rule's variables and body are
+    # WIRE-spelled (`object`); a difference / membership test between the two leaves a reserved-word path or body field among the query
+    # parameters, and a REQUIRED one is then sent a second time (`object=` with its default) through __REQUIRED_FIELDS_DEFAULT_VALUES
+    from ..namespaces import NameSpaces, FuncSpaces, PY
+    ns = NameSpaces(m, "gapic.schema.wrappers.Method")
+    for attr in ("query_params", "path_params", "http_opt", "body_fields", "http_options"):
+        f = m.func(f"gapic.schema.wrappers.Method.{attr}")
+        r4.instance({"spelling agreement": attr})
+        for node, l, rr, what in FuncSpaces(ns, f.node).run().conflicts:
+            r4.violation(p, getattr(node, "lineno", f.node.lineno), f"Method.{attr}: {what} mixes {l}- and {rr}-spelled field names",
+                         f"a {l}-spelled collection (reserved words carry a trailing '_') meets a {rr}-spelled one in {what}: for a reserved-word "
+                         f"field (`object`, `type`, `format`, ...) the two never match, so a path/body field stays among the query parameters and a "
+                         f"REQUIRED one is sent twice")
+        r4.ok()
+    sp = ns.member_space("query_params")
+    r4.need(sp is not None, "Method.query_params", "cannot infer whether the result is PY- or WIRE-spelled")
+    r4.check(sp == PY, p, qp.node.lineno, f"Method.query_params yields {sp}-spelled names",
+             "the templates test `req_field.name in method.query_params` (Field.name is the PY spelling), so the result must be PY-spelled")
     for qual in ("gapic.schema.wrappers.Method.path_params",):      # field_headers' pattern is C06's (C06.4)
         f = m.func(qual)
         from ..pymodel import nfunc
